@@ -250,7 +250,12 @@ func runOne(t *testing.T, check string, seed int64, i int, bubble bool, wdSec in
 		body(c)
 	}
 	if bubble {
-		func() {
+		// (in a goroutine of its own: when the race detector reports a race inside the bubble, the testing
+		// package aborts the calling goroutine with Goexit; the case loop must survive that and write the
+		// record of what the monitors saw)
+		bubbleDone := make(chan struct{})
+		go func() {
+			defer close(bubbleDone)
 			// synctest.Test panics in the caller when the bubble deadlocks; keep the record.
 			defer func() {
 				if r := recover(); r != nil {
@@ -275,6 +280,7 @@ func runOne(t *testing.T, check string, seed int64, i int, bubble bool, wdSec in
 				run()
 			})
 		}()
+		<-bubbleDone
 	} else {
 		run()
 	}
